@@ -522,6 +522,17 @@ fn enum_make(_tier: Tier, i: u64) -> Case {
     mk(raw_quaternary(dir, n, code, [41, 81, 108]), (p % 5) as u8, (i % 251) as u8, sel_for((p / 5) as usize % n, n), 0, (i % 6) as u8)
 }
 
+/// libFuzzer entry / from-bytes generator: bring a decoded case into the domain of `strategy`
+pub fn fuzz_domain(c: &mut Case) -> bool {
+    c.g.sanitize(1, 12, 40, None);
+    c.wmode %= 5;
+    c.cost %= 6;
+    true
+}
+pub fn bytes_strategy(_tier: Tier) -> BoxedStrategy<Case> {
+    decoded_strategy(fuzz_domain)
+}
+
 pub fn property() -> Property {
     Property {
         id: "C11",
@@ -529,7 +540,7 @@ pub fn property() -> Property {
         assumptions: &["float costs are multiples of 0.25 below 2^10 in magnitude, so every sum is exact and equality needs no tolerance"],
         both_profiles: false,
         subs: vec![
-            sub("negcost/general", 3_000_000, 40_000_000, strategy, run),
+            sub_fuzz("negcost/general", 3_000_000, 40_000_000, strategy, run, fuzz_domain), sub("negcost/general-from-bytes", 600_000, 10_000_000, bytes_strategy, run),
             sub_enum("negcost/all-small-weighted-graphs", enum_count, enum_make, run),
             sub("negcost/dense-negative-dag", 1_200_000, 20_000_000, strategy_dense_dag, run),
             sub("negcost/i8-extremes", 1_000_000, 20_000_000, strategy_i8, run_i8),
